@@ -441,11 +441,13 @@ def parseShortArg (c : Cmd) (sf : ShortFlags) (st : ParseState) (posCounter : Na
   match stateArg c st with
   | none => (p, .error (.panic "cmd[opt]: expect"))
   | some sa =>
-  if (sa.map fun a => a.allowHyphen || (a.allowNegative && sf.isNegativeNumber)).getD false then
+  -- a group revisited after its flag subcommand (`flag_subcmd_skip != 0`) is always read as flags
+  let revisiting := p.flagSubSkip != 0
+  if !revisiting && (sa.map fun a => a.allowHyphen || (a.allowNegative && sf.isNegativeNumber)).getD false then
     (p, .ok (.maybeHyphenValue, validArgFound))
-  else if ((c.getPos posCounter).map (·.allowNegative)).getD false && sf.isNegativeNumber then
+  else if !revisiting && ((c.getPos posCounter).map (·.allowNegative)).getD false && sf.isNegativeNumber then
     (p, .ok (.maybeHyphenValue, validArgFound))
-  else if ((c.getPos posCounter).map fun a => a.allowHyphen && !a.last).getD false &&
+  else if !revisiting && ((c.getPos posCounter).map fun a => a.allowHyphen && !a.last).getD false &&
       ((sf.chars.any fun ch => !c.containsShort ch) || sf.invalid.isSome) then
     (p, .ok (.maybeHyphenValue, validArgFound))
   else
